@@ -213,52 +213,72 @@ let classify c (g : segment) (best : node) (mism : state list) : string * string
                  (int_of_z s.target) (int_of_nat (length s.buffer)) (int_of_nat s.tokens) (int_of_nat (pending_calls s)))
        | _, _ -> ("missing", Printf.sprintf "history ends the instant but the model must still do {%s}" (offers c best)))
 
+(* what a history file is, from its first line *)
+type hkind = KBatcher | KShared | KLease | KEventer | KBuffer | KRt
+
+let kind_of path : hkind =
+  let l = (try let ic = open_in path in let l = (try input_line ic with End_of_file -> "") in close_in ic; l with Sys_error _ -> "") in
+  let starts p = String.length l >= String.length p && String.sub l 0 (String.length p) = p in
+  if starts "eventer-history" then KEventer
+  else if starts "buffer-history" then KBuffer
+  else if starts "rt-history" then KRt
+  else if starts "lease-history" then KLease
+  else if starts "sname" then KShared
+  else KBatcher
+
+let replay_batcher fuel path =
+  try
+    let h = read_history path in
+    let nseg = List.length h.segs in
+    (match replay h.cfg dedup fuel h.segs with
+     | Accepted (_, mx) -> Printf.printf "ACCEPT %s segs=%d maxstates=%d\n%!" path nseg (int_of_nat mx)
+     | Rejected (k, g, best, mism) ->
+         let (kind, detail) = classify h.cfg g best mism in
+         Printf.printf "REJECT %s seg=%d t=%d kind=%s :: %s\n" path (int_of_nat k) (int_of_z g.sg_time) kind detail
+     | OutOfFuel k -> Printf.printf "FUEL %s seg=%d\n" path (int_of_nat k))
+  with
+  | Too_many n -> Printf.printf "FUEL %s frontier=%d\n%!" path n
+  | Unknown_obs k -> Printf.printf "REJECT %s seg=-1 t=-1 kind=unknown:%s :: observation the model does not know\n" path k
+  | Failure m -> Printf.printf "ERROR %s %s\n" path m
+
+let monitor_one pid path =
+  match kind_of path with
+  | KLease -> Lease.monitor_file path
+  | KEventer -> Eventer.monitor_file path
+  | KBuffer -> Bufrep.monitor_file path
+  | KRt -> Rt.monitor_file pid path
+  | KShared ->
+      (try
+         let h = Shared.read path in
+         List.iter (fun msg -> Printf.printf "MONITOR %s %s\n" path msg) (Smonitors.monitor pid h);
+         Printf.printf "STATS %s %s\n%!" path (Smonitors.stats h)
+       with Failure m -> Printf.printf "ERROR %s %s\n" path m)
+  | KBatcher ->
+      (try
+         let h = Monitors.read path in
+         List.iter (fun msg -> Printf.printf "MONITOR %s %s\n" path msg) (Monitors.monitor pid h);
+         Printf.printf "STATS %s %s\n%!" path (Monitors.stats path h)
+       with Failure m -> Printf.printf "ERROR %s %s\n" path m)
+
 let () =
   let fuel = big_nat 2000000 in
   let args = List.tl (Array.to_list Sys.argv) in
   let mode, files = match args with m :: r -> (m, r) | [] -> ("replay", []) in
   if String.length mode > 8 && String.sub mode 0 8 = "monitor:" then begin
     let pid = String.sub mode 8 (String.length mode - 8) in
-    let is_buffer path = (try let ic = open_in path in let l = (try input_line ic with End_of_file -> "") in close_in ic; l = "buffer-history" with Sys_error _ -> false) in
-    if files <> [] && List.for_all is_buffer files then (List.iter Buffer.monitor_file files; exit 0);
-    if pid = "C18" then (List.iter Lease.monitor_file files; exit 0);
-    if pid = "C20" then (List.iter Eventer.monitor_file files; exit 0);
-    if List.mem pid ["C04"; "C06"; "C07"; "C09"; "C17"] then begin
-      List.iter (fun path ->
-          if Rt.is_rt path then Rt.monitor_file pid path else
-          try
-            let h = Shared.read path in
-            List.iter (fun msg -> Printf.printf "MONITOR %s %s\n" path msg) (Smonitors.monitor pid h);
-            Printf.printf "STATS %s %s\n%!" path (Smonitors.stats h)
-          with Failure m -> Printf.printf "ERROR %s %s\n" path m) files;
-      exit 0
-    end;
-    List.iter (fun path ->
-        try
-          let h = Monitors.read path in
-          List.iter (fun msg -> Printf.printf "MONITOR %s %s\n" path msg) (Monitors.monitor pid h);
-          Printf.printf "STATS %s %s\n%!" path (Monitors.stats path h)
-        with Failure m -> Printf.printf "ERROR %s %s\n" path m) files;
+    List.iter (monitor_one pid) files;
     exit 0
   end;
-  if mode = "sreplay" then (List.iter Shared.replay_file files; exit 0);
-  if mode = "lreplay" then (List.iter Lease.replay_file files; exit 0);
-  if mode = "ereplay" then (List.iter Eventer.replay_file files; exit 0);
-  if mode = "breplay" then (List.iter Buffer.replay_file files; exit 0);
-  if mode = "monitor:C18" then (List.iter Lease.monitor_file files; exit 0);
-  if mode <> "replay" then (prerr_endline ("unknown mode " ^ mode); exit 2);
-  List.iter (fun path ->
-      try
-        let h = read_history path in
-        let nseg = List.length h.segs in
-        (match replay h.cfg dedup fuel h.segs with
-         | Accepted (_, mx) -> Printf.printf "ACCEPT %s segs=%d maxstates=%d\n%!" path nseg (int_of_nat mx)
-         | Rejected (k, g, best, mism) ->
-             let (kind, detail) = classify h.cfg g best mism in
-             Printf.printf "REJECT %s seg=%d t=%d kind=%s :: %s\n" path (int_of_nat k) (int_of_z g.sg_time) kind detail
-         | OutOfFuel k -> Printf.printf "FUEL %s seg=%d\n" path (int_of_nat k))
-      with
-      | Too_many n -> Printf.printf "FUEL %s frontier=%d\n%!" path n
-      | Unknown_obs k -> Printf.printf "REJECT %s seg=-1 t=-1 kind=unknown:%s :: observation the model does not know\n" path k
-      | Failure m -> Printf.printf "ERROR %s %s\n" path m)
-    files
+  (* every replay mode dispatches on what the file is, so one property can mix engines *)
+  if List.mem mode ["replay"; "sreplay"; "lreplay"; "ereplay"; "breplay"; "auto"] then begin
+    List.iter (fun path ->
+        match kind_of path with
+        | KBatcher -> replay_batcher fuel path
+        | KShared -> Shared.replay_file path
+        | KLease -> Lease.replay_file path
+        | KEventer -> Eventer.replay_file path
+        | KBuffer -> Bufrep.replay_file path
+        | KRt -> ()) files;
+    exit 0
+  end;
+  prerr_endline ("unknown mode " ^ mode); exit 2
